@@ -5,20 +5,26 @@ RULE = ("random op sequences (2-16 / 2-30 ops) over three registers - a NoneOneO
         "collection), map, in-place mutation through &mut IntoIterator / BorrowMut, contains, ==, cmp, into_option / From<NoneOneOrMany>, every ProcessAudit / EngineAudit constructor, "
         "add_output, add_errors, with_process_and_err, Terminal; SendRequestsOutput / SendCancelsAndOpensOutput / GenerateAlgoOrdersOutput / ActionOutput built from scripted per-request "
         "results (sent / recoverable / unrecoverable) with is_empty and unrecoverable_errors; `eng` = one call of the real Engine::process (exchange 0 healthy, exchanges 1-2 with a closed "
-        "execution link, scripted command / algo cancels / algo opens, some refused by the risk manager). Items from {0..3}, lengths biased to 0/1/2. Observed after every op: variant, len, "
+        "execution link; ten events: Shutdown, the commands SendCancelRequests / SendOpenRequests with scripted requests, CancelOrders over open orders the engine learnt from order "
+        "snapshots, ClosePositions with a scripted ClosePositionsStrategy returning cancels AND opens, trading on / off, an account balance item, market / account reconnecting "
+        "notices; scripted algo cancels / algo opens, some refused by the risk manager). Items from {0..3}, lengths biased to 0/1/2. Observed after every op: variant, len, "
         "is_empty/is_none/is_one/is_many, into_vec, iter, into_iter, as_ref (= borrow = &into_iter), sorted items, serde_json text (and round trip), into_option; audits: outputs, errors, "
         "terminal. Thorough additionally enumerates: every start value (every variant, lists over {1,2} of length <= 3) x every extension list of length <= 3 for both types; every "
         "vector of length <= 3 through all four From/FromIterator impls; every (initial errors, added errors) pair of lists of length <= 3 for add_errors; every pattern of "
-        "sent/recoverable/unrecoverable results of length <= 3 on the cancel side x the open side (1600 pairs) for SendCancelsAndOpensOutput / GenerateAlgoOrdersOutput. "
+        "sent/recoverable/unrecoverable results of length <= 3 on the cancel side x the open side (1600 pairs) for SendCancelsAndOpensOutput / GenerateAlgoOrdersOutput; every pattern of "
+        "healthy / dead exchanges for <= 2 cancels x <= 3 opens (520 pairs) through one real Engine::process each, once as the requests of a ClosePositions command and once as the "
+        "algo requests of an account-item tick. "
         "Distinct by SHA-1 of the op lines; non-trivial when the implementation's observation block changes at least once")
 ASSUMPTIONS = [
     "a Rust iterator argument is a finite list; Vec::push / Vec::extend are append; elements are i64 (the types are generic, the code never inspects an element except through ==)",
     "serde: the derived externally-tagged shape is taken from serde_json's output for i64 elements (\"None\", {\"One\":x}, {\"Many\":[..]}); Deserialize is the literal constructor (no normalisation)",
     "examined boundary B1 (order): X::One(x).extend(it) with it yielding >= 2 items returns Many(items of it ++ [x]) - the single item of self ends up LAST "
     "(none_one_or_many.rs:41-44, one_or_many.rs:36-39: `right.push(left)`), whereas every other arm keeps `self, then other`. Proved exactly (nom_extend_order_iff); the abstract spec "
-    "(extend = append) leaves the ORDER unconstrained in exactly that case and still constrains multiset, length, membership, variant. Reachable in the engine: "
-    "SendCancelsAndOpensOutput::unrecoverable_errors with exactly 1 unrecoverable cancel error and >= 2 unrecoverable open errors lists the open errors first "
-    "(witness: `eng on mkt / 1:1 / 2:2 2:3` -> audit errors [ex2, ex2, ex1])",
+    "(extend = append) leaves the ORDER unconstrained in exactly that case (Spec.reorders: one item extended by >= 2 items not all equal to it; the order counts as determined "
+    "again once all items are equal) and still constrains multiset, length, membership, variant. Reachable in the engine in TWO places: "
+    "SendCancelsAndOpensOutput::unrecoverable_errors with exactly 1 unrecoverable cancel error and >= 2 unrecoverable open errors (not all equal to it) lists the open errors first - "
+    "in the generation stage (witness: `eng on mkt / 1:1 / 2:2 2:3` -> audit errors [ex2, ex2, ex1]) and on the command path of Command::ClosePositions, whatever the trading "
+    "state and the algo requests are (witness: `eng off cmdx 1:1 / 2:2 2:3 / /` -> [ex2, ex2, ex1]; ActionOutput::ClosePositions(r) => r.unrecoverable_errors(), action/mod.rs:44)",
     "examined boundary B2 (representation): the abstract reading is `variant = f(number of items)`. It holds for everything the NoneOneOrMany API builds (nom_reachable_canonical) but the "
     "variants are public and Deserialize does not normalise: Many(vec![]) has len() == 0 and is_empty() == false, One(x) != Many(vec![x]). The spec constrains variant / is_empty / == "
     "only for values whose representation is determined",
@@ -26,8 +32,17 @@ ASSUMPTIONS = [
     "on an empty iterator) although From<Vec> panics on the empty vector; One(x).extend(empty) = Many(vec![x]) != One(x). The spec treats these as outside the domain (variant unconstrained)",
     "as of /repo a7785e6 the algo arm of Engine::process is process_audit.add_output(output).add_errors(unrecoverable): the AlgoOrders output stays in the audit next to the errors; "
     "the spec now also constrains the `eng` outputs (first-stage output, then `algo` whenever generation ran and the strategy generated anything - sent, failed or refused)",
-    "the `eng` op covers the audit assembly of Engine::process (engine/mod.rs:146-186) for Shutdown, SendCancelRequests / SendOpenRequests commands, trading-state updates, an account "
-    "item, market / account disconnect notices; sends succeed on a healthy link and fail unrecoverably on a closed one (unbounded channels have no recoverable failure)",
+    "the `eng` op covers the audit assembly of Engine::process (engine/mod.rs:146-186) for a TEN-event alphabet: Shutdown, all four commands (SendCancelRequests, SendOpenRequests, "
+    "CancelOrders, ClosePositions), trading-state updates, an account balance item (op name `mkt` for historical reasons - it is not a market event), market / account reconnecting "
+    "notices; sends succeed on a healthy link and fail unrecoverably on a closed one (unbounded channels have no recoverable failure; Unhealthy and missing links are not in this "
+    "sub-check - parent C03 has them). NOT in the alphabet: account items that exit a position (first-stage output PositionExit) and market items; both take the `update` path of "
+    "the model with another first-stage output (the record-level constructors with_account_update / with_market_update are covered by the `a.acc` / `a.mkt` ops)",
+    "Command::CancelOrders: the cancel requests are derived by the engine from the orders it tracks; the op lists those orders (fed to the real engine as order snapshots) sorted by "
+    "exchange and pairwise distinct (otherwise bad-op on both sides) - the engine walks the instruments in index order and the orders of one instrument in hash-map order, which the "
+    "audit cannot show (all of them name the same exchange); WHICH orders a filter selects is C19's subject. Command::ClosePositions: the requests are what the "
+    "ClosePositionsStrategy returns (user code): scripted, in the model an input (theorems quantify over every pair of request lists)",
+    "`n.map k` / `n.mut k` / `o.map k` / `o.mut k` use the harness's own closure `|x| x + k`; an op whose sum would leave i64 is answered `bad-op` by harness, model and spec alike "
+    "(it used to panic inside the harness closure)",
 ]
 SOURCE_FILES = ["barter-integration/src/collection/none_one_or_many.rs", "barter-integration/src/collection/one_or_many.rs",
                 "barter/src/engine/audit/mod.rs", "barter/src/engine/action/mod.rs", "barter/src/engine/action/send_requests.rs",
@@ -43,15 +58,29 @@ CLAIM = False
 TECHNIQUE = ("Lean 4: concrete model function-for-function, abstraction to List (`asRef`), algebraic laws by case analysis on the variants, exact characterisation of where a law stops "
              "(iff-theorems), reachability invariant by induction over API terms, refinement of register-machine runs to list programs by induction over op histories; correspondence "
              "of the model with the real code incl. serde and one real Engine::process per `eng` op")
-LEVEL_TEXT = ("Proof + correspondence. lean/BarterModel/Props/C03N.lean proves for all values, items and histories: all readings of a NoneOneOrMany / OneOrMany agree; From<Vec> / FromIterator / "
+LEVEL_TEXT = ("Proof + correspondence. lean/BarterModel/Props/C03N.lean proves for all values, items and histories: From<Vec> / FromIterator / "
               "From<Option> give the items in order in canonical form with variant = f(length) (nom_from_iter, nom_from_option, oom_from_iter, oom_from_vec); from_iter . into_iter = id exactly on "
               "canonical values (nom_from_iter_into_iter); == is sequence equality exactly on canonical values (nom_eq_iff_of_canonical, nom_eq_distinguishes_representations); len / contains / map "
-              "are the list operations; is_empty <=> len = 0 on canonical values and NOT for Many([]) (nom_is_empty, nom_is_empty_many_nil); extend always gives the right multiset / length / membership "
+              "are the list operations; is_empty <=> len = 0 for every value except Many([]) (nom_is_empty, nom_is_empty_iff_exact, nom_is_empty_many_nil); extend always gives the right multiset / length / membership "
               "and keeps canonical form (nom_extend_perm, nom_extend_canonical) and keeps the order iff not (self = One(x), other has >= 2 items not all x) (nom_extend_order_iff, "
-              "nom_extend_one_many_reversed); every API-built NoneOneOrMany is canonical (nom_reachable_canonical) while OneOrMany::from_iter([]) = Many([]) and One(x).extend([]) = Many([x]) "
-              "(oom_from_iter, oom_extend_canonical_iff); derived Ord is consistent with Eq but compares the variant first. Audit records: add_output appends in order for every history, add_errors is "
-              "extend, terminal <=> event terminal or an error present, all API-built records are canonical; register-machine runs refine list programs (run*_refines). Action outputs: "
-              "unrecoverable_errors are the unrecoverable failures in request order, for cancels-and-opens a permutation of cancels ++ opens that is in order iff not (1 cancel error, >= 2 open errors); "
-              "in Engine::process add_errors only meets an empty error collection (engine_assemble), and for every link table, trading state, event and strategy output the audit's outputs are exactly the first stage's output followed by the AlgoOrders output whenever anything was generated - also when a send failed unrecoverably, nothing generated is dropped - and its errors are characterised (engine_audit_errors).")
+              "nom_extend_one_many_reversed, nom_extend_all_same); every API-built NoneOneOrMany is canonical (nom_reachable_canonical) while OneOrMany::from_iter([]) = Many([]) and One(x).extend([]) = Many([x]) "
+              "(oom_from_iter, oom_extend_canonical_iff); derived Ord is consistent with Eq, compares the variant first whatever the payloads (nom_cmp_variant_first, oom_cmp_variant_first) and is on "
+              "canonical values the order `length class, then items lexicographically` (nom_cmp_of_canonical). Audit records: add_output appends in order for every history, add_errors is "
+              "extend, terminal <=> event terminal or an error present for every record whose errors are not the literal Many([]) (audit_terminal_iff, audit_terminal_many_nil), all API-built records are "
+              "canonical; register-machine runs refine list programs (runN/O/A_refines, _exact; a panicking OneOrMany op changes nothing, runO_panicking_step). Action outputs: "
+              "unrecoverable_errors are the unrecoverable failures in request order, for cancels-and-opens a permutation of cancels ++ opens that is in order iff not (1 cancel error k, >= 2 open errors not all k) "
+              "(cancels_and_opens_unrecoverable, action_unrecoverable); in Engine::process add_errors only meets an empty error collection (last conjunct of engine_assemble). One Engine::process, for every link table "
+              "healthy/terminated, trading state, strategy output and every event of a TEN-event alphabet (Shutdown; the commands SendCancelRequests, SendOpenRequests, CancelOrders, ClosePositions; trading on/off; an "
+              "account balance item; market / account reconnecting notices): the audit's outputs are exactly the first stage's output followed by the AlgoOrders output whenever anything was generated - also when a send "
+              "failed unrecoverably, nothing generated is dropped - and its error collection is, value and representation, from_iter(cancel-side failures).extend(open-side failures) of the stage that failed "
+              "(engine_audit_closed_form); hence a permutation of the failed sends, terminal iff Shutdown or a failure, and in request order IFF the failed stage does not have exactly one cancel-side failure and two or "
+              "more open-side failures not all equal to it (engine_audit_errors, audit_reorders_iff) - a shape met by the generation stage (AlgoBoundary: necessary, not sufficient, algo_boundary_is_not_sufficient) and on the "
+              "command path of ClosePositions independently of the algo requests (close_positions_command_order, witness close_positions_reorders_outside_algo_boundary). "
+              "Definitional / bookkeeping statements, not results: nom_readings_agree / oom_readings_agree (one asRef in the model), the first two conjuncts of engine_assemble, actionErrors, the middle conjunct of runO_refines.")
 LEVEL_NOTE = ("Trusted: Lean kernel; axioms propext/Classical.choice/Quot.sound only; the hand-written model tied to the code by sampled + small-scope exhaustive correspondence "
-              "(400 quick / 6000 random + ~4.6k enumerated thorough); harness and driver. Boundaries B1-B3 are reported, not repaired.")
+              "(400 quick / 6000 random + 2885 enumerated cases thorough, 520 of them one or two real Engine::process calls each); harness and driver. Boundaries B1-B3 are reported, not repaired. "
+              "Scope of the engine-level theorems: the ten events of EngEv; account items that exit a position, market items, Unhealthy / missing links are not in it (declared in ASSUMPTIONS). "
+              "The requests of CancelOrders / ClosePositions are inputs of the model (which orders a filter selects: C19). "
+              "Spec driver vs theorems: the spec prints the exact order (`errors`, `unrec`, `vec`, ...) exactly where the theorems prove `self, then other` is kept (Spec.reorders false) or all items are equal, "
+              "and `ord` / `oord` where both values are canonical; it stays silent (weaker than the model) on order after a reversing step until the value is replaced or all items are equal, on a one-item value "
+              "written down as Many([x]) extended by >= 2 items (order in fact kept), and on == / Ord when a representation is not canonical.")
